@@ -127,6 +127,31 @@ def run(cap):
     t = Topo(nc)
     probs = t.ordering_problems()
     out.append(rec("file.topology_integers_ordered", cls, 7, len(probs), 0, sig="; ".join(probs)[:300], where={k: int(nc[k]) for k in ("nx", "ny", "y_boundary_guards", "ixseps1", "ixseps2", "jyseps1_1", "jyseps2_1", "ny_inner", "jyseps1_2", "jyseps2_2")}))
+    # the number of X-points the topology has = the number of X-points of the equilibrium that lie
+    # inside the wall and strictly inside the gridded psi range (oracle: analytic critical points of
+    # the family, the psi range of the x-faces in the file, exact point-in-polygon test)
+    if cap.fam is not None and cap.spec.get("kind", "tok") == "tok":
+        from .. import exactgeom as xg
+        from .c03 import transform
+
+        pf_, _ = transform(cap.spec)
+        px = np.concatenate([np.ravel(nc["psixy_xlow"]), np.ravel(nc["psixy_xlow"][-1:] + nc["dx"][-1:])])
+        lo, hi = float(px.min()), float(px.max())
+        span = hi - lo
+        wallp = [xg.P(p) for p in np.column_stack([nc["closed_wall_R"], nc["closed_wall_Z"]])[:-1]]
+        n_in = 0
+        ambiguous = False
+        for xr, xz, xpsi in cap.fam.critical_points()[1]:
+            ps_ = pf_ * xpsi
+            if xg.winding_inside(xg.P((xr, xz)), wallp) != "inside":
+                continue
+            if min(abs(ps_ - lo), abs(ps_ - hi)) < 2e-3 * span:
+                ambiguous = True
+            if lo < ps_ < hi:
+                n_in += 1
+        n_file = 0 if int(nc["jyseps1_1"]) < 0 and int(nc["jyseps2_2"]) >= int(nc["ny"]) - 1 and int(nc["ixseps1"]) >= int(nc["nx"]) else (2 if int(nc["jyseps2_1"]) != int(nc["jyseps1_2"]) else 1)
+        if not ambiguous:
+            out.append(rec("file.number of X-points in the topology = X-points inside the wall and the gridded psi range", cls, 1, abs(n_file - min(n_in, 2)), 0, sig="topology has %d, the gridded range contains %d" % (n_file, n_in), where={"psi_range": [lo, hi]}))
     up = t.up_map()
     LL = (nc["Rxy_corners"], nc["Zxy_corners"])
     LR = (nc["Rxy_lower_right_corners"], nc["Zxy_lower_right_corners"])
